@@ -1,6 +1,6 @@
 #!/bin/bash
 # tools/run_all.sh [tier] : run every registered check on the current tree, summarise.
-cd /verif
+cd "$(dirname "$0")/.."
 tier=${1:-quick}
 for id in $(/venv/bin/python -c "import json;print(' '.join(c['property_id'] for c in json.load(open('MANIFEST.json'))['checks']))"); do
   s=$(date +%s)
